@@ -7,5 +7,11 @@ mkdir -p out evidence
 if [ -f shim/ioshim.c ]; then
   gcc -O2 -fPIC -shared -o shim/ioshim.so shim/ioshim.c -ldl -lpthread
 fi
-(cd harness && cargo build --offline --profile verif && cargo build --offline --profile verif-rel)
-echo "setup ok"
+# Every check builds the harness itself against /repo's current working tree and reports a build failure
+# as a harness error of that check; building here only warms the cache, so a failure is reported, not fatal
+# (C14 does not need the harness at all, and must still be able to judge a tree on which it does not build).
+if (cd harness && cargo build --offline --profile verif && cargo build --offline --profile verif-rel); then
+  echo "setup ok"
+else
+  echo "setup: the harness does not build against /repo's current tree; each check will report that itself" >&2
+fi
